@@ -542,7 +542,9 @@ func planFragmentMatches(schema Schema, typeConditionAST *ast.Named, runtime *Ob
 		return true
 	}
 	conditionalType, err := typeFromAST(schema, typeConditionAST)
-	if err != nil {
+	if err != nil || conditionalType == nil {
+		// unknown type in the condition (only reachable when the document
+		// was not validated): the fragment never applies
 		return false
 	}
 	if conditionalType == runtime {
